@@ -365,10 +365,15 @@ static TxRec *on_event(Exec *ex, int hook, htp_tx_t *tx, bool eob_marker = false
 
 extern "C" void htp_verif_probe(const char *site, htp_connp_t *connp, long a, long b) {
     Exec *ex = g_ex;
-    (void) a; (void) b;
     if (!ex || !site) return;
     ex->res->probes[site]++;
     if (!connp) return;
+    if (!strcmp(site, "decomp.restart") && a - b > 0) {
+        ex->res->probes["decomp.restart.prior_input"]++;
+        if (connp->out_tx) rec_for(ex, connp->out_tx).decomp_restart_lost_input = true;
+        if (connp->in_tx && connp->in_tx != connp->out_tx && connp->in_tx->request_content_encoding > HTP_COMPRESSION_NONE) rec_for(ex, connp->in_tx).decomp_restart_lost_input = true;
+        return;
+    }
     if (!strcmp(site, "req.finalize.as_body") && connp->in_tx) rec_for(ex, connp->in_tx).lenient_site[0] = site;
     else if ((!strcmp(site, "res.finalize.as_body") || !strcmp(site, "res.line.as_body")) && connp->out_tx) rec_for(ex, connp->out_tx).lenient_site[1] = site;
 }
@@ -416,6 +421,22 @@ static int data_cb(int hook, htp_tx_data_t *d) {
             switch (hook) {
                 case HK_REQUEST_BODY_DATA: case HK_RESPONSE_BODY_DATA: {
                     int s = hook == HK_REQUEST_BODY_DATA ? 0 : 1;
+                    // ---- C07 bound half (all inputs): decompressed bytes delivered for one message never exceed
+                    //      max(bomb limit, 2048 x compressed bytes) by more than one output buffer; layers within the limit
+                    if (tx->connp && tx->connp->cfg) {
+                        htp_cfg_t *cfg = tx->connp->cfg;
+                        htp_decompressor_t *dc = s == 0 ? tx->connp->req_decompressor : tx->connp->out_decompressor;
+                        bool decoding = s == 0 ? (tx->request_content_encoding > HTP_COMPRESSION_NONE) : (tx->response_content_encoding_processing > HTP_COMPRESSION_NONE);
+                        if (decoding) {
+                            int64_t el = s == 0 ? tx->request_entity_len : tx->response_entity_len, ml = s == 0 ? tx->request_message_len : tx->response_message_len;
+                            int64_t lim = std::max<int64_t>((int64_t) cfg->compression_bomb_limit, 2048 * ml) + 8192;
+                            if (el > lim) violate(ex, "C07", s ? "C07.response_bomb_bound" : "C07.request_bomb_bound", strfmt("tx#%d delivered=%lld compressed=%lld limit=%d", r->ordinal, (long long) el, (long long) ml, (int) cfg->compression_bomb_limit));
+                            int layers = 0, lz = 0; for (htp_decompressor_t *q = dc; q && layers < 100; q = q->next) { layers++; if (((htp_decompressor_gzip_t *) q)->zlib_initialized == HTP_COMPRESSION_LZMA) lz++; }
+                            if (s == 1 && cfg->response_decompression_layer_limit > 0 && layers > cfg->response_decompression_layer_limit && layers > 1)
+                                violate(ex, "C07", "C07.too_many_layers", strfmt("tx#%d layers=%d limit=%d", r->ordinal, layers, cfg->response_decompression_layer_limit));
+                            if (layers > r->max_layers) r->max_layers = layers;
+                        }
+                    }
                     if (p == NULL && n == 0) r->eob[s]++;
                     else if (p == NULL) { r->body_gap[s] += (int64_t) n; r->body_seen[s] += (int64_t) n; }
                     else { r->body_seen[s] += (int64_t) n; if ((long) r->body[s].size() < ex->cap_body) r->body[s].append((const char *) p, n); }
